@@ -490,6 +490,11 @@ func Drive[C any](t *testing.T, s Spec[C]) {
 	if v := envInt("VERIF_CASES_"+strings.ToUpper(s.Name), -1); v >= 0 {
 		total = int(v)
 	}
+	if sc := os.Getenv("VERIF_SCALE"); sc != "" {
+		if f, err := strconv.ParseFloat(sc, 64); err == nil && f > 0 && f < 1 {
+			total = int(float64(total)*f + 0.999)
+		}
+	}
 	if total <= 0 {
 		return
 	}
@@ -581,4 +586,65 @@ func Enumerate[C any](t *testing.T, s Spec[C], cases []C) {
 		t.Errorf("VIOLATION %s/%s sig=%s: %s", out.Meta.ID, s.Name, f.Sig, f.Msg)
 		return
 	}
+}
+
+// ---------------------------------------------------------------- race detector integration
+
+var raceSeen int64
+
+// RaceReport returns the text the Go race detector has written since the last call (the driver
+// points GORACE=log_path at $VERIF_RACELOG for race-instrumented binaries). Empty when nothing
+// new was reported or the binary is not race-instrumented.
+func RaceReport() string {
+	prefix := os.Getenv("VERIF_RACELOG")
+	if prefix == "" {
+		return ""
+	}
+	files, _ := filepath.Glob(prefix + ".*")
+	var total int64
+	for _, f := range files {
+		if st, err := os.Stat(f); err == nil {
+			total += st.Size()
+		}
+	}
+	if total <= raceSeen {
+		return ""
+	}
+	var sb strings.Builder
+	for _, f := range files {
+		b, _ := os.ReadFile(f)
+		sb.Write(b)
+	}
+	txt := sb.String()
+	if int64(len(txt)) > raceSeen {
+		txt = txt[raceSeen:]
+	}
+	raceSeen = total
+	return txt
+}
+
+// RaceFailure turns a race report into a Failure whose signature names the first polyform
+// function on the reported stacks.
+func RaceFailure(report string) *Failure {
+	site := "unknown"
+	for _, l := range strings.Split(report, "\n") {
+		l = strings.TrimSpace(l)
+		if strings.HasPrefix(l, "github.com/EliCDavis/polyform/") {
+			site = strings.TrimPrefix(l, "github.com/EliCDavis/polyform/")
+			if i := strings.Index(site, "("); i > 0 && !strings.HasPrefix(site[i:], "(*") {
+				site = site[:i]
+			}
+			if i := strings.LastIndex(site, ")"); i > 0 && strings.Contains(site, "(*") {
+				j := strings.Index(site[i:], "(")
+				if j > 0 {
+					site = site[:i+j]
+				}
+			}
+			break
+		}
+	}
+	if len(report) > 3000 {
+		report = report[:3000] + "\n..."
+	}
+	return Failf("data-race/"+site, "the Go race detector reported a data race while this case ran:\n%s", report)
 }
